@@ -9,6 +9,7 @@ property theorems are stated over those regenerated values.
 -/
 import RqModel.Model.CasRetry
 import RqModel.Gen.Consts
+import RqModel.Gen.QueueSvc
 import RqModel.Lemmas.LockFacts
 namespace C31
 open RqModel.CasRetry
@@ -169,6 +170,12 @@ theorem close_fails_only_after_limit (start : Nat) (rel : Option Nat) (t : Nat)
 a holder released 50 ms after `Close` starts delays `Close` by ten seconds. -/
 theorem swapped_args_witness :
     beginWithRetry 0 10000000 10000000000 (some 50000000) = .acquired 10000000000 := by decide
+
+/-- every `BeginWithRetry` call site in store/ (Close and Backup) passes a positive retry
+interval that is shorter than its timeout — i.e. none has the two arguments swapped -/
+theorem every_retry_call_site_ordered :
+    RqModel.Gen.QueueSvc.beginWithRetryCalls.length = 2 ∧
+    ∀ c ∈ RqModel.Gen.QueueSvc.beginWithRetryCalls, 0 < c.2.2 ∧ c.2.2 * 10 ≤ c.2.1 := by decide
 
 /-- `BeginWithRetry` itself takes no lock: it is a loop around `Begin` -/
 theorem retry_is_a_loop_around_begin :
